@@ -335,6 +335,20 @@ static size_t run_line(size_t pc, int in_child, int *stop) {
         struct sockaddr_un u; memset(&u, 0, sizeof u); u.sun_family = AF_UNIX; snprintf(u.sun_path, sizeof u.sun_path, "%s", (char *) a);
         int sent = 0; if (connect(sfd, (struct sockaddr *) &u, sizeof u) == 0) { while (send(sfd, "F", 1, MSG_DONTWAIT) == 1 && sent < 100000) sent++; }
         close(sfd); free(a); opf("{\"ev\":\"filled\",\"n\":%d}\n", sent);
+    } else if (!strcmp(c, "cleardir") || !strcmp(c, "listdir")) {   /* files of a directory with their contents (hex) / remove them */
+        unsigned char *a = unhex(tok[1], &n); DIR *dd = opendir((char *) a); struct dirent *de; int first = 1;
+        if (!strcmp(c, "listdir")) opf("{\"ev\":\"dir\",\"files\":[");
+        while (dd && (de = readdir(dd))) {
+            if (!strcmp(de->d_name, ".") || !strcmp(de->d_name, "..")) continue;
+            char pth[8192]; snprintf(pth, sizeof pth, "%s/%s", (char *) a, de->d_name);
+            if (!strcmp(c, "listdir")) {
+                static unsigned char fb[4096]; int f = open(pth, O_RDONLY); ssize_t rr = f >= 0 ? read(f, fb, sizeof fb) : 0; if (rr < 0) rr = 0; if (f >= 0) close(f);
+                opf("%s[", first ? "" : ","); first = 0; ohex((unsigned char *) de->d_name, strlen(de->d_name)); opf(","); ohex(fb, (size_t) rr); opf("]");
+            } else unlink(pth);
+        }
+        if (dd) closedir(dd);
+        if (!strcmp(c, "listdir")) opf("]}\n");
+        free(a);
     } else if (!strcmp(c, "dumpable")) { prctl(PR_SET_DUMPABLE, 1);
     } else if (!strcmp(c, "setsid")) { if (setsid() < 0) opf("{\"ev\":\"error\",\"what\":\"setsid: %s\"}\n", strerror(errno));
     } else if (!strcmp(c, "rename")) { unsigned char *a = unhex(tok[1], &n), *b2 = unhex(tok[2], &n); if (rename((char *) a, (char *) b2)) opf("{\"ev\":\"error\",\"what\":\"rename: %s\"}\n", strerror(errno)); free(a); free(b2);
